@@ -838,6 +838,39 @@ func c18RunB(c *engine.Ctx, root string) {
 							c18CheckResolution(c, key+" -f w1/main.jq", append(args, "-n", "-f", "w1/main.jq"), fdirs, dirs, exists, n, ext, rb, cands, mask)
 						}
 					}
+					// two imports in one program, the first with a `search` entry: the entry belongs to that import only
+					// (also with ignored entries among the -L options, which leave the loader's list with spare capacity)
+					if !isData {
+						for _, extra := range [][]string{nil, {"-L", ""}, {"-L", "", "-L", ""}} {
+							var dirs []string
+							args := append([]string{}, extra...)
+							for _, d := range cfg.dirs {
+								dirs = append(dirs, filepath.Join(rb, d))
+								args = append(args, "-L", d)
+							}
+							for _, sd := range []string{"d1", "d2", "nowhere"} {
+								query := fmt.Sprintf("import %q as a {search: %q}; import %q as b; [a::t, b::t]", n, sd, n)
+								key := fmt.Sprintf("two-imports n=%s mask=%d cfg=%s extra=%d search=%s", n, mask, cfg.name, len(extra), sd)
+								if !c.Guard(key) {
+									continue
+								}
+								c.Eval()
+								wa, fa := c18Lookup(exists, append([]string{filepath.Join(rb, sd)}, dirs...), n, ext)
+								wb, fb := c18Lookup(exists, dirs, n, ext)
+								r := RunCLIString(append(append([]string{}, args...), "-n", "-c", query), "")
+								c.Unguard()
+								if fa && fb {
+									c.DistinctN(1)
+									want := fmt.Sprintf("[%q,%q]", strings.TrimPrefix(wa, rb+"/"), strings.TrimPrefix(wb, rb+"/"))
+									if r.Status != 0 || strings.TrimSpace(r.Stdout) != want {
+										c.Violation(key, "resolution", map[string]any{"args": args, "query": query, "present": c18Present(cands, mask), "want": want, "status": r.Status, "stdout": head(r.Stdout, 200), "stderr": head(r.Stderr, 200)})
+									}
+								} else if r.Status != 3 || !strings.Contains(r.Stderr, "module not found") {
+									c.Violation(key, "resolution", map[string]any{"args": args, "query": query, "present": c18Present(cands, mask), "want": "module not found", "status": r.Status, "stdout": head(r.Stdout, 200), "stderr": head(r.Stderr, 200)})
+								}
+							}
+						}
+					}
 					// nested: main imports w (which lives in w1 or w1/sub), w imports n with a `search` relative to w's own directory
 					for _, wdir := range []string{"w1", "w1/sub"} {
 						for _, ws := range []string{"", "./", "../d2", "../../d2", ".", "ABS/d1", "../d1/"} {
@@ -1214,7 +1247,7 @@ func init() {
 		ID:    "C18",
 		Level: "model_checking",
 		Rule: "module trees main -> x -> y -> z (depth 3, diamonds, the same module reached by include and by import, the same alias used twice): main links = every sequence of <= 2 (thorough <= 3) distinct links from 8 (include/import x, y, z under aliases a, b, c; data imports d and e as $d) x 10 link lists of x x 4 of y x definition profiles (9 for x and y, 5 for z, 3 for main: the same name at different arities, redefinition, forward references, calls of unqualified, qualified and builtin-shadowing names, $d and $d::d) are materialised with the real module loader; 27 probes (f, f(1), g, k, v, length under no alias, a::, b::, c::; $d, $d::d, $e) are each compiled and run, and must be defined with the predicted value or fail with the predicted error of the model (textual inclusion with namespacing). " +
-			"File-system resolution: the 4 candidate files of a module (d1/n.jq, d1/n/base.jq, d2/n.jq, d2/n/base.jq; n = x and p/x; .json for data) x every presence subset x 4 -L configurations x 6 `search` entries in main (also as a -f file in another directory) x nested modules living in two directories with 7 `search` entries, and in a directory other than the working directory with 6 bare relative entries. modulemeta for 4 x 5 x 6 modules (arities up to 12); the default search list with the real binary (3 kinds of ~/.jq x lib/gojq, lib presence x 4 -L settings). A tree is non-trivial when at least one probe is visible; a resolution case when a file is found.",
+			"File-system resolution: the 4 candidate files of a module (d1/n.jq, d1/n/base.jq, d2/n.jq, d2/n/base.jq; n = x and p/x; .json for data) x every presence subset x 4 -L configurations x 6 `search` entries in main (also as a -f file in another directory) x nested modules living in two directories with 7 `search` entries, and in a directory other than the working directory with 6 bare relative entries; two imports of one name in one program, the first with a `search` entry, with 0..2 ignored (empty) -L entries. modulemeta for 4 x 5 x 6 modules (arities up to 12); the default search list with the real binary (3 kinds of ~/.jq x lib/gojq, lib presence x 4 -L settings). A tree is non-trivial when at least one probe is visible; a resolution case when a file is found.",
 		Assume:         []string{"the model's reading of the property: include = textual insertion (so an included module sees what its includer has defined so far, and exports its own imports), import = isolation plus alias prefix"},
 		Run:            c18Run,
 		Replay:         c18Replay,
